@@ -14,6 +14,21 @@ import (
 // sanitizerForContext returns an ordered list of function names that will be called to
 // sanitize data values found in the HTML context defined by c.
 func sanitizerForContext(c context) ([]string, error) {
+	ret, err := sanitizerForInnermostContext(c)
+	if err == nil && c.enclosing != "" && (c.state == stateText || c.enclosing == "*") {
+		// e.g. `<object><b>{{.X}}</b></object>`. If the kind of the enclosing element is not
+		// known, e.g. `{{if .C}}<script{{else}}<div{{end}}><b title="{{.X}}">`, what looks like
+		// a tag inside it may be text of a script.
+		if c.enclosing == "*" {
+			return nil, fmt.Errorf("actions must not occur inside an element whose name is not known for certain")
+		}
+		return nil, fmt.Errorf("actions must not occur inside a %q element, in whose content actions are not allowed", c.enclosing)
+	}
+	return ret, err
+}
+
+// sanitizerForInnermostContext is sanitizerForContext without regard to enclosing elements.
+func sanitizerForInnermostContext(c context) ([]string, error) {
 	if c.element.continued {
 		// Only a prefix of the element name is known, e.g. "s" for `<s{{/* c */}}cript>`.
 		if c.attr.name != "" || len(c.attr.names) > 0 {
@@ -105,7 +120,7 @@ func sanitizationContextForAttributeValue(c context) (sanitizationContext, error
 // template that is called from inside attribute values.
 func attributeValueClass(c context) string {
 	sc, err := sanitizationContextForAttributeValue(c)
-	if err != nil || c.element.continued || c.attr.continued {
+	if err != nil || c.element.continued || c.attr.continued || c.enclosing == "*" {
 		return "Invalid"
 	}
 	s := sc.String()
